@@ -280,7 +280,24 @@ func scheduledOnly(c *Ctx, rule string) {
 		return
 	}
 	n := 0
-	for _, cl := range sch.AnonFuncs {
+	// every closure nested in schedule (or in a helper that only schedule reaches) that transmits
+	var closures []*ssa.Function
+	var collect func(f *ssa.Function)
+	collect = func(f *ssa.Function) {
+		for _, a := range f.AnonFuncs {
+			closures = append(closures, a)
+			collect(a)
+		}
+	}
+	collect(sch)
+	for _, f := range c.srcFuncs() {
+		if f.Parent() == nil && f != sch && !anchorFuncs[c.fname(f)] {
+			if ok, _ := c.reachedOnlyFrom(f, func(root *ssa.Function) bool { return root == sch }); ok && len(c.callersOf()[f]) > 0 {
+				collect(f)
+			}
+		}
+	}
+	for _, cl := range closures {
 		calls := false
 		for _, ci := range an.CallsIn(cl) {
 			if an.CallIs(ci.Common(), PkgCorerad, "Advertiser", "sendWorker") || an.CallIs(ci.Common(), PkgCorerad, "Advertiser", "send") {
@@ -293,7 +310,7 @@ func scheduledOnly(c *Ctx, rule string) {
 		n++
 		ok := false
 		fact := "closure not handed to the scheduler"
-		if site, isMC := closureSite(sch, cl).(*ssa.MakeClosure); isMC && site.Referrers() != nil {
+		if site, isMC := closureSite(cl.Parent(), cl).(*ssa.MakeClosure); isMC && site.Referrers() != nil {
 			for _, r := range *site.Referrers() {
 				ci, isCall := r.(ssa.CallInstruction)
 				if !isCall {
@@ -317,7 +334,7 @@ func scheduledOnly(c *Ctx, rule string) {
 			"worker closures run only as schedgroup tasks of the group bound to schedule()'s cancelable context (which every exit waits for)",
 			"a pending transmission is not bound to the scheduler: it can fire after the final RA and after Run has returned")
 	}
-	c.R.Check(n >= 2, rule, c.fname(sch)+":worker-closures", c.fname(sch), c.pos(sch.Pos()), fmt.Sprintf("%d worker closure(s)", n), ">= 2 (unicast, multicast)", "anchor-missing")
+	c.R.Check(n >= 1, rule, c.fname(sch)+":worker-closures", c.fname(sch), c.pos(sch.Pos()), fmt.Sprintf("%d worker closure(s)", n), ">= 1 (2 confirmed by reading: unicast, multicast)", "anchor-missing")
 }
 
 type selArmInfo struct {
@@ -396,26 +413,67 @@ func c08Terminator(c *Ctx) {
 	}
 	// isTerminal per configuration.
 	if it := c.needFunc("R-C08-3", "internal/corerad", "isTerminal"); it != nil {
-		for _, r := range an.Returns(it) {
-			e := c.XO.Of(r.Results[0])
+		// s compared with SIGHUP: (tok, true) when e is `s ==/!= syscall.SIGHUP`
+		hupCmp := func(e *an.Expr) (token.Token, bool) {
+			if e.Op != an.OpBin || (e.Tok != token.NEQ && e.Tok != token.EQL) {
+				return 0, false
+			}
+			x, y := e.Args[0], e.Args[1]
+			if y.Op == an.OpParam {
+				x, y = y, x
+			}
+			k, isC := y.ConstInt()
+			if x.Op == an.OpParam && isC && k == 1 && strings.HasSuffix(typeStr(y.Typ), "syscall.Signal") {
+				return e.Tok, true
+			}
+			return 0, false
+		}
+		nHup := 0
+		for _, p := range c.pathsO("R-C08-3", it, an.PathOpts{}) {
+			if p.Ret == nil {
+				continue
+			}
+			e := p.Results[0]
 			var ok bool
-			var want string
+			want := "s != syscall.SIGHUP"
+			state := "any"
 			if c.P.Cfg.GOOS == "windows" {
 				want = "true"
 				ok = e.IsConst("true")
 			} else {
-				want = "s != syscall.SIGHUP"
-				if e.Op == an.OpBin && e.Tok == token.NEQ {
-					x, y := e.Args[0], e.Args[1]
-					if y.Op == an.OpParam {
-						x, y = y, x
+				// what the path knows about s
+				hup, known, otherTests := false, false, false
+				for _, a := range p.Atoms {
+					if tok, isCmp := hupCmp(a.Cond); isCmp {
+						known = true
+						hup = (tok == token.EQL) == a.Pos
+					} else {
+						otherTests = true
 					}
-					k, isC := y.ConstInt()
-					ok = x.Op == an.OpParam && isC && k == 1 && strings.HasSuffix(typeStr(y.Typ), "syscall.Signal")
+				}
+				switch {
+				case known && hup:
+					state = "s=SIGHUP"
+					nHup++
+					ok = e.IsConst("false")
+				case known && !hup:
+					state = "s≠SIGHUP"
+					ok = e.IsConst("true")
+				default:
+					if tok, isCmp := hupCmp(e); isCmp && tok == token.NEQ && !otherTests {
+						ok = true
+						nHup++
+					}
+				}
+				if tok, isCmp := hupCmp(e); isCmp && tok == token.NEQ && !known && !otherTests {
+					ok = true
 				}
 			}
-			c.R.Check(ok, "R-C08-3", c.fname(it)+":definition", c.fname(it), c.pos(r.Pos()), "isTerminal(s) = "+e.String(), want,
+			c.R.Check(ok, "R-C08-3", c.fname(it)+":definition@"+state, c.fname(it), c.pos(p.Ret.Pos()), "isTerminal(s) = "+e.String()+" under "+state, want,
 				"which signals mean terminate vs. reload is wrong: SIGHUP must be the only reload signal")
+		}
+		if c.P.Cfg.GOOS != "windows" {
+			c.R.Check(nHup >= 1, "R-C08-3", c.fname(it)+":reload-case", c.fname(it), c.pos(it.Pos()), fmt.Sprintf("%d path(s) decide SIGHUP", nHup), ">= 1", "SIGHUP is not recognised as the reload signal")
 		}
 	}
 	if sg := c.needFunc("R-C08-3", "internal/corerad", "Signals"); sg != nil && c.P.Cfg.GOOS != "windows" {
